@@ -13,10 +13,16 @@ from .lf import call_sink, local_guards, loops_of, passthrough, yield_sink
 
 
 def _exit_guards(loop: ast.AST) -> list[set[str]]:
+    """One atom set per way of leaving the loop: exits merged into `if A or B: break` are split into their alternatives."""
+    from ..guards import guards_of
+    from ..norm import guard_alternatives
+
+    inner = {id(x) for x in ast.walk(loop)}
     out = []
     for x in ast.walk(loop):
         if isinstance(x, (ast.Break, ast.Return)):
-            out.append(local_guards(x, loop))
+            gs = [(t, p) for t, p in guards_of(x) if id(getattr(t, "_orig", t)) in inner]
+            out.extend(guard_alternatives(gs))
     return out
 
 
